@@ -100,8 +100,11 @@ def to_dict(spec, native_dates=False, reverse_keys=False):
              "value_origin": p.get("value_origin"),
              "val_cardinality": list(p["val_card"]) if p.get("val_card") else None}
         if p["dtype"].endswith("-tuple"):
-            if p["values"]:
-                d["value"] = "[" + ",".join("(" + ";".join(v) + ")" for v in p["values"]) + "]"
+            texts = ["(" + ";".join(v) + ")" for v in p["values"]]
+            if any("," in t or '"' in t for t in texts):
+                d["value"] = texts           # a list of tuple texts is unambiguous
+            elif p["values"]:
+                d["value"] = "[" + ",".join(texts) + "]"
             else:
                 d["value"] = []
         else:
